@@ -77,6 +77,15 @@ class State:
     def assume(self, c):
         if z3.is_true(c):
             return
+        # skip exact duplicates (the term is pinned by the path condition, so its id stays valid)
+        ids = self.ghost.get("__pcids__")
+        if ids is None or ids[0] is not self.pc:
+            ids = (self.pc, {x.get_id() for x in self.pc})
+            self.ghost["__pcids__"] = ids
+        i = c.get_id()
+        if i in ids[1]:
+            return
+        ids[1].add(i)
         self.pc.append(c)
 
     def sig(self):
